@@ -196,18 +196,30 @@ def run(db, chk):
         for fn in db.fns(unit=uname, pred=lambda f: f.cls == model.FLOW_GRAPH and f.name == "update_routes"):
             seq = []
 
+            elev_args = {}
+
             class W3(Walker):
                 def visit(self, node, st):
                     if node.get("k") == "call":
                         nm = node.get("bn", "").split("::")[-1]
                         if nm == "apply" and "flow_operator_impl_facade" in node.get("bn", ""):
                             st = st.add("ev", "applied")
+                            if len(node.get("a", [])) >= 2:
+                                elev_args["apply"] = pp(strip(node["a"][1]))
                         if nm == "save" and "flow_operator_impl_facade" in node.get("bn", ""):
                             seq.append((node, st.has("ev", "applied")))
+                            if len(node.get("a", [])) >= 3:
+                                elev_args["save"] = pp(strip(node["a"][2]))
                     return st
             W3(fn).run()
             if not seq:
                 raise AnalysisBroken("C16-T3: update_routes does not call save()")
+            same = elev_args.get("apply") is not None and elev_args.get("apply") == elev_args.get("save")
+            chk.ob("C16-T3", "update_routes hands save() the same (current) elevation as apply(): "
+                   "%s / %s [%s]" % (elev_args.get("apply"), elev_args.get("save"), uname), same,
+                   where=fn.ploc, function=fn.bn, construct="save-elevation-arg",
+                   detail="" if same else "elevation snapshots would not be taken from the elevation "
+                   "the preceding operators produced", extra={"unit": uname})
             for node, ok in seq:
                 chk.ob("C16-T3", "save() follows apply() of the same operator in update_routes [%s]" % uname,
                        ok, where=fn.loc(node), function=fn.bn, construct="save-after-apply",
